@@ -197,15 +197,21 @@ class FP11RMOperandStub(RegisterModeOperandStub):
 
         register = try_as_register(operand, state)
         if register is not None:
-            (reports.warning if register < 6 else reports.error)(
-                "implicit-accumulator",
-                (
-                    operand.ctx_start, operand.ctx_end,
-                    f"This FP11 instruction takes either an accumulator, or any CPU addressing mode except simple register for this operand.\n{operand!r} will be implicitly treated as ac{register} in this context -- please use the latter mnemonic for clarity."
-                    + ("" if register < 6 else "\nMoreover, accumulator ac{register} does not exist, because only accumulators ac0 to ac5 exist.")
+            def implicit_accumulator(register):
+                (reports.warning if register < 6 else reports.error)(
+                    "implicit-accumulator",
+                    (
+                        operand.ctx_start, operand.ctx_end,
+                        f"This FP11 instruction takes either an accumulator, or any CPU addressing mode except simple register for this operand.\n{operand!r} will be implicitly treated as ac{register} in this context -- please use the latter mnemonic for clarity."
+                        + ("" if register < 6 else "\nMoreover, accumulator ac{register} does not exist, because only accumulators ac0 to ac5 exist.")
+                    )
                 )
-            )
-            return register, b""
+                return register
+            # The register number may be an expression ('%x') whose value is
+            # not known yet
+            if isinstance(register, BaseDeferred):
+                return Deferred[int](lambda: implicit_accumulator(wait(register))), b""
+            return implicit_accumulator(register), b""
 
         return super().encode(operand, state)
 
